@@ -226,48 +226,81 @@ def bitset(ctx, fx):
              "DynamicBitSet::set/reset(index): word = index / 64, mask = 1 << (index % 64); CAS loop on bitvec[word] installing "
              "old | mask (set) / old & ~mask (reset), attempted only while the bit differs; returns the old bit")
     DB = G + "DynamicBitSet::"
-    for nm, newpat, guard in (("set", "(old_val | bit_offset)", "((old_val & bit_offset) == 0)"),
-                              ("reset", "(old_val & ~bit_offset)", "((old_val & bit_offset) != 0)")):
+    for nm in ("set", "reset"):
         fs = [f for f in fx.functions if f["qn"] == DB + nm and f["kind"] != "pattern" and len(f["params"]) == 1]
         ctx.floor(DB + nm, len(fs), 1)
         for f in fs[:1]:
             fn = ctx.fn(f)
             idx = f["params"][0]["n"]
             det = []
-            d = {e["n"]: S(e.get("init")) for _, e in fn.events(lambda e: e.get("k") == "decl" and "init" in e)}
-            if d.get("bit_index") != "(%s / bits_uint64)" % idx and d.get("bit_index") != "(%s / galois::DynamicBitSet::bits_uint64)" % idx:
-                det.append("word index %s" % d.get("bit_index"))
-            sh = [e for _, e in fn.events(lambda e: e.get("k") == "assign" and e.get("lp") == "bit_offset" and e.get("op") == "<<=")]
-            if d.get("bit_offset") != "1" or len(sh) != 1 or not re.fullmatch(r"\(?%s %% .*bits_uint64\)?" % idx, sh[0].get("rp") or ""):
-                det.append("mask is not 1 << (index %% 64): %s <<= %s" % (d.get("bit_offset"), [e.get("rp") for e in sh]))
-            ats = [e for _, e in fn.events(lambda e: e["k"] == "atomic")]
-            if any(e["kind"] in ("store", "rmw") for e in ats):
+            ats = [(p, e) for p, e in fn.events(lambda e: e["k"] == "atomic")]
+            if any(e["kind"] in ("store", "rmw") for _, e in ats):
                 det.append("plain store / non-CAS RMW")
-            cas = [e for e in ats if e["kind"] == "cas"]
+            cas = [(p, e) for p, e in ats if e["kind"] == "cas"]
             if len(cas) != 1:
                 det.append("compare_exchange sites: %d" % len(cas))
-            else:
-                if not cas[0]["p"].endswith("bitvec[bit_index]"):
-                    det.append("CAS on %s" % cas[0]["p"])
-                args = [S(x) for x in cas[0].get("a", [])]
-                if args[:2] != ["old_val", newpat]:
-                    det.append("CAS(%s)" % args[:2])
-                g = lambda t: S(t) == guard
-                conds = [S(fn.branch(bid)[0]) for bid in fn.blocks if fn.branch(bid)]
-                if not any(c in (guard, "(old_val & bit_offset)") for c in conds):
-                    det.append("no test of the bit before the CAS: %s" % conds)
-                isc = lambda t: t.get("k") == "call" and (t.get("name") or "").startswith("compare_exchange")
-                ge = fn.guard_edges(isc, True)
-                # the guard literal: lit() strips `== 0` / `!= 0`
-                bitlit = lambda t: S(t) == "(old_val & bit_offset)"
-                ge |= fn.guard_edges(bitlit, nm == "set")     # set: stop when bit already 1; reset: stop when bit 0 -> literal False
-                if nm == "reset":
-                    ge = fn.guard_edges(isc, True) | fn.guard_edges(bitlit, False)
-                _, ex = fn.search([fn.entry_state()], edge_ok=lambda bb, i, s: (bb, i) not in ge)
-                if ex:
-                    det.append("returns after a failed compare_exchange while the bit still differs")
+                ctx.ob("C15.bitset.cas-on-word", DB + nm, False, "; ".join(det), fn.loc(), nm, fnkey=f["key"])
+                continue
+            cpos, ce = cas[0]
+            # names are taken from the code: X = the CAS's expected variable, W = the word index, M = the mask
+            X = S(ce["a"][0]) if ce.get("a") else "?"
+            m = re.fullmatch(r"this->bitvec\[(\w+)\]", ce["p"])
+            if not m:
+                det.append("CAS on %s" % ce["p"])
+            W = m.group(1) if m else "?"
+            alldefs = {}
+            for _, e in fn.events(lambda e: (e.get("k") == "decl" and "init" in e) or (e.get("k") == "assign" and e.get("op") == "=")):
+                if e["k"] == "decl":
+                    alldefs.setdefault(e["n"], set()).add(S(e.get("init")))
+                else:
+                    alldefs.setdefault(e.get("lp"), set()).add(S(e.get("rhs")))
+            wdef = alldefs.get(W, set())
+            if not wdef or any(not re.fullmatch(r"\(%s / (galois::DynamicBitSet::)?bits_uint64\)" % idx, x) for x in wdef):
+                det.append("word index %s = %s" % (W, sorted(wdef)))
+            # desired value, with locals that have one defining expression expanded
+            D = S(ce["a"][1]) if len(ce.get("a", [])) > 1 else "?"
+            stale_vars = []
+            for _ in range(3):
+                for v, ds in alldefs.items():
+                    if len(ds) == 1 and v != X and re.search(r"\b%s\b" % re.escape(v), D):
+                        d = next(iter(ds))
+                        if re.search(r"\b%s\b" % re.escape(X), d):
+                            stale_vars.append(v)
+                            D = re.sub(r"\b%s\b" % re.escape(v), d, D)
+            mm = re.fullmatch(r"\(%s \| (\w+)\)|\((\w+) \| %s\)" % (X, X), D) if nm == "set" else \
+                re.fullmatch(r"\(%s & ~(\w+)\)|\(~(\w+) & %s\)" % (X, X), D)
+            if not mm:
+                det.append("CAS installs %s (expected variable %s)" % (D, X))
+            M = (mm.group(1) or mm.group(2)) if mm else "?"
+            sh = [e for _, e in fn.events(lambda e: e.get("k") == "assign" and e.get("lp") == M and e.get("op") == "<<=")]
+            if alldefs.get(M) != {"1"} or len(sh) != 1 or not re.fullmatch(r"\(?%s %% .*bits_uint64\)?" % idx, sh[0].get("rp") or ""):
+                det.append("mask %s is not 1 << (index %% 64): %s <<= %s" % (M, sorted(alldefs.get(M, [])), [e.get("rp") for e in sh]))
+            # freshness: a failed compare_exchange rewrites X, so every local the desired value is computed from X through
+            # must be recomputed before the next attempt
+            for v in set(stale_vars):
+                redefine = lambda e, v=v: (e.get("k") == "decl" and e.get("n") == v) or (e.get("k") == "assign" and e.get("lp") == v)
+                h, _ = fn.search([fn.after(cpos)], stop=lambda e: redefine(e) or e is ce)
+                if any(fn.ev(q) is ce for q in h):
+                    det.append("after a failed compare_exchange (which reloads %s) the next attempt still installs %s computed "
+                               "from the old %s: concurrent bits of the word are overwritten" % (X, v, X))
+            bit = "(%s & %s)" % (X, M)
+            conds = [S(fn.branch(bid)[0]) for bid in fn.blocks if fn.branch(bid)]
+            if bit not in conds:
+                det.append("no test of the bit before the CAS: %s" % conds)
+            isc = lambda t: t.get("k") == "call" and (t.get("name") or "").startswith("compare_exchange")
+            bitlit = lambda t: S(t) == bit
+            # the loop is left only after a successful CAS or when the bit already has the wanted value
+            ge = fn.guard_edges(isc, True) | fn.guard_edges(bitlit, nm == "set")
+            _, ex = fn.search([fn.entry_state()], edge_ok=lambda bb, i, s: (bb, i) not in ge)
+            if ex:
+                det.append("returns after a failed compare_exchange while the bit still differs")
+            # the CAS is attempted only while the bit differs
+            if fn.guarded_positions(lambda e: e is ce, bitlit, nm != "set",
+                                    kill=lambda e: e is ce or (e.get("k") in ("decl", "assign") and
+                                                               (e.get("n") == X or e.get("lp") == X))):
+                det.append("compare_exchange attempted without testing the bit in the current %s" % X)
             rets = {S(e.get("e")) for _, e in fn.events(lambda e: e["k"] == "ret")}
-            if rets != {"(old_val & bit_offset)"}:
+            if rets != {bit}:
                 det.append("returns %s" % sorted(rets))
             ctx.ob("C15.bitset.cas-on-word", DB + nm, not det, "; ".join(det), fn.loc(), nm, fnkey=f["key"])
     for f in [g for g in fx.functions if g["qn"] == DB + "test" and g["kind"] != "pattern"][:1]:
